@@ -205,3 +205,16 @@ Example ex_src_reject :
   finditer_of (toks_of (chars "%d %!")) 0 ms /\
     src_formatstring_init int_max_str_digits (fun _ => ms) model_prefix (chars "%d %!") = CRaise (XErr (EError (chars "%!"))).
 Proof. split; [apply finditer_of_matches_of; vm_compute; reflexivity | vm_compute; reflexivity]. Qed.
+
+(* get_last_integer_conversion(n=..): IndexError, None, or the conversion object (its index in _items; .integer is True) *)
+From I18n Require Import Proofs.FmtCSrcGlic.
+Theorem C11_source_tie_get_last_integer_conversion : forall maxd items args w n,
+  src_get_last_integer_conversion maxd args n
+  = match fmtc_glic (mkfs items args w) n with
+    | Ok (Some i) => CRet (Some (i, true))
+    | Ok None => CRet None
+    | Err _ => CRaise XIndex
+    | Crash c => CRaise (XCrash c)
+    end.
+Proof. exact src_glic_eq. Qed.
+Print Assumptions C11_source_tie_get_last_integer_conversion.
